@@ -1,0 +1,483 @@
+//! Verification hook (cargo feature `Verif_Hooks` only; the module does not exist otherwise).
+//!
+//! A drop-in `Mutex<T>` / `MutexGuard` pair with the part of the `std::sync` API this crate uses
+//! (`new`, `from`, `default`, `lock`, `try_lock`; `lock()` returns `std::sync::LockResult`, so
+//! `.lock().unwrap()` compiles unchanged).  The files that use `std::sync::Mutex` import this one
+//! instead when the feature is on.  It wraps a real `std::sync::Mutex` and additionally
+//!
+//! * records, per acquisition *request* (so also the one that never returns): the thread, the
+//!   lock class (`std::any::type_name::<T>()`), the instance (serial number in creation order),
+//!   the call site (`#[track_caller]`) and the set of locks the thread holds at that moment
+//!   (class, instance, site of acquisition) — aggregated into a global table readable through
+//!   [`snapshot`];
+//! * maintains a wait-for graph (owner of every lock, lock every blocked thread waits for) and
+//!   reports a cycle at the moment the last participant blocks ([`deadlocks`]); a thread locking
+//!   a mutex it already holds is the one-element cycle;
+//! * can delay chosen acquisitions ([`add_delay`]) to drive a predicted interleaving;
+//! * lists the threads currently blocked and for how long ([`blocked`]), for a watchdog.
+//!
+//! Nothing here changes what the crate computes; with the feature off nothing of this is compiled.
+
+use std::cell::RefCell;
+use std::collections::{BTreeMap, HashMap};
+use std::fmt;
+use std::ops::{Deref, DerefMut};
+use std::panic::Location;
+use std::sync::atomic::{AtomicU64, AtomicUsize, Ordering};
+use std::sync::{PoisonError, TryLockError};
+use std::time::{Duration, Instant};
+
+pub use std::sync::{LockResult, TryLockResult};
+
+static NEXT_LOCK_ID: AtomicUsize = AtomicUsize::new(1);
+static NEXT_THREAD_ID: AtomicUsize = AtomicUsize::new(1);
+static REQUESTS: AtomicU64 = AtomicU64::new(0);
+/// Recording is off until a check switches it on: with the hooks compiled in but recording off a
+/// `Mutex` behaves (and costs) like `std::sync::Mutex`.
+static RECORDING: std::sync::atomic::AtomicBool = std::sync::atomic::AtomicBool::new(false);
+
+pub fn set_recording(on: bool) {
+    RECORDING.store(on, Ordering::SeqCst);
+}
+
+pub fn recording() -> bool {
+    RECORDING.load(Ordering::Relaxed)
+}
+
+/// Where and what: one held or requested lock.
+#[derive(Clone, Debug, PartialEq, Eq, PartialOrd, Ord, Hash)]
+pub struct LockRef {
+    /// `type_name::<T>()` of the protected value
+    pub class: &'static str,
+    /// serial number of the mutex (creation order)
+    pub id: usize,
+    /// file of the `.lock()` call that acquired / requests it
+    pub file: &'static str,
+    pub line: u32,
+    pub col: u32,
+}
+
+/// Aggregated record: at site (`file`,`line`,`col`) a lock of `class` was requested while the
+/// locks `held` (class, site, relation of its instance to the requested instance) were held.
+#[derive(Clone, Debug, PartialEq, Eq, PartialOrd, Ord, Hash)]
+pub struct Acquisition {
+    pub class: &'static str,
+    pub file: &'static str,
+    pub line: u32,
+    pub col: u32,
+    pub try_lock: bool,
+    pub held: Vec<Held>,
+}
+
+#[derive(Clone, Debug, PartialEq, Eq, PartialOrd, Ord, Hash)]
+pub struct Held {
+    pub class: &'static str,
+    pub file: &'static str,
+    pub line: u32,
+    pub col: u32,
+    /// -1: the held instance was created before the requested one, 0: the same instance, 1: after
+    pub order: i8,
+}
+
+/// One edge of a detected wait-for cycle: `thread` waits for `wants`, which `owner` holds.
+#[derive(Clone, Debug)]
+pub struct WaitEdge {
+    pub thread: usize,
+    pub thread_name: String,
+    pub wants: LockRef,
+    pub owner: usize,
+    /// everything `thread` holds while waiting
+    pub holds: Vec<LockRef>,
+}
+
+#[derive(Clone, Debug)]
+pub struct DeadlockReport {
+    pub cycle: Vec<WaitEdge>,
+}
+
+#[derive(Clone, Debug)]
+pub struct Blocked {
+    pub thread: usize,
+    pub thread_name: String,
+    pub wants: LockRef,
+    pub owner: Option<usize>,
+    pub for_millis: u128,
+}
+
+#[derive(Clone, Debug, Default)]
+pub struct Snapshot {
+    /// distinct acquisition records with the number of times each was seen
+    pub acquisitions: Vec<(Acquisition, u64)>,
+    pub deadlocks: Vec<DeadlockReport>,
+    /// number of lock()/try_lock() requests since the last reset
+    pub requests: u64,
+    /// number of requests that had to wait
+    pub contended: u64,
+}
+
+struct Delay {
+    file_suffix: String,
+    line: u32,
+    millis: u64,
+    remaining: usize,
+}
+
+#[derive(Default)]
+struct State {
+    acquisitions: HashMap<Acquisition, u64>,
+    /// lock id -> (owning thread, how it was acquired)
+    owner: HashMap<usize, (usize, LockRef)>,
+    /// blocked thread -> (what it wants, since when, its name, what it holds)
+    waiting: BTreeMap<usize, (LockRef, Instant, String, Vec<LockRef>)>,
+    deadlocks: Vec<DeadlockReport>,
+    delays: Vec<Delay>,
+    contended: u64,
+}
+
+fn state() -> std::sync::MutexGuard<'static, State> {
+    static STATE: std::sync::OnceLock<std::sync::Mutex<State>> = std::sync::OnceLock::new();
+    STATE
+        .get_or_init(|| std::sync::Mutex::new(State::default()))
+        .lock()
+        .unwrap_or_else(|e| e.into_inner())
+}
+
+thread_local! {
+    static THREAD: (usize, RefCell<Vec<LockRef>>) =
+        (NEXT_THREAD_ID.fetch_add(1, Ordering::Relaxed), RefCell::new(Vec::new()));
+}
+
+fn thread_id() -> usize {
+    THREAD.with(|t| t.0)
+}
+
+fn thread_name() -> String {
+    std::thread::current().name().unwrap_or("?").to_string()
+}
+
+/// Forget everything recorded so far (delays are kept).
+pub fn reset() {
+    let mut st = state();
+    st.acquisitions.clear();
+    st.deadlocks.clear();
+    st.contended = 0;
+    REQUESTS.store(0, Ordering::Relaxed);
+}
+
+pub fn snapshot() -> Snapshot {
+    let st = state();
+    let mut acquisitions: Vec<(Acquisition, u64)> = st.acquisitions.iter().map(|(a, n)| (a.clone(), *n)).collect();
+    acquisitions.sort();
+    Snapshot {
+        acquisitions,
+        deadlocks: st.deadlocks.clone(),
+        requests: REQUESTS.load(Ordering::Relaxed),
+        contended: st.contended,
+    }
+}
+
+pub fn deadlocks() -> Vec<DeadlockReport> {
+    state().deadlocks.clone()
+}
+
+/// Threads that are blocked in `lock()` right now.
+pub fn blocked() -> Vec<Blocked> {
+    let st = state();
+    st.waiting
+        .iter()
+        .map(|(t, (wants, since, name, _))| Blocked {
+            thread: *t,
+            thread_name: name.clone(),
+            wants: wants.clone(),
+            owner: st.owner.get(&wants.id).map(|o| o.0),
+            for_millis: since.elapsed().as_millis(),
+        })
+        .collect()
+}
+
+/// Sleep `millis` before each of the next `times` acquisitions requested at `line` of a file whose
+/// path ends with `file_suffix` (while the locks held at that moment stay held).
+pub fn add_delay(file_suffix: &str, line: u32, millis: u64, times: usize) {
+    state().delays.push(Delay {
+        file_suffix: file_suffix.to_string(),
+        line,
+        millis,
+        remaining: times,
+    });
+}
+
+pub fn clear_delays() {
+    state().delays.clear();
+}
+
+fn take_delay(loc: &Location) -> Option<u64> {
+    let mut st = state();
+    for d in st.delays.iter_mut() {
+        if d.remaining > 0 && d.line == loc.line() && loc.file().ends_with(d.file_suffix.as_str()) {
+            d.remaining -= 1;
+            return Some(d.millis);
+        }
+    }
+    None
+}
+
+fn record_request(me: &LockRef, try_lock: bool) {
+    REQUESTS.fetch_add(1, Ordering::Relaxed);
+    let held: Vec<Held> = THREAD.with(|t| {
+        t.1.borrow()
+            .iter()
+            .map(|h| Held {
+                class: h.class,
+                file: h.file,
+                line: h.line,
+                col: h.col,
+                order: match h.id.cmp(&me.id) {
+                    std::cmp::Ordering::Less => -1,
+                    std::cmp::Ordering::Equal => 0,
+                    std::cmp::Ordering::Greater => 1,
+                },
+            })
+            .collect()
+    });
+    let mut held_sorted = held;
+    held_sorted.sort();
+    held_sorted.dedup();
+    let a = Acquisition {
+        class: me.class,
+        file: me.file,
+        line: me.line,
+        col: me.col,
+        try_lock,
+        held: held_sorted,
+    };
+    *state().acquisitions.entry(a).or_insert(0) += 1;
+}
+
+/// Registers the calling thread as waiting for `me` and looks for a wait-for cycle through it.
+fn begin_wait(me: &LockRef) {
+    let t = thread_id();
+    let holds: Vec<LockRef> = THREAD.with(|th| th.1.borrow().clone());
+    let mut st = state();
+    st.contended += 1;
+    st.waiting.insert(t, (me.clone(), Instant::now(), thread_name(), holds));
+    // follow: thread -> lock it wants -> owner of that lock -> ...
+    let mut cycle: Vec<WaitEdge> = Vec::new();
+    let mut cur = t;
+    let mut found = false;
+    for _ in 0..1000 {
+        let (wants, _, name, holds) = match st.waiting.get(&cur) {
+            Some(w) => w.clone(),
+            None => break,
+        };
+        let owner = match st.owner.get(&wants.id) {
+            Some(o) => o.0,
+            None => break,
+        };
+        cycle.push(WaitEdge {
+            thread: cur,
+            thread_name: name,
+            wants,
+            owner,
+            holds,
+        });
+        if owner == t {
+            found = true;
+            break;
+        }
+        if cycle.iter().any(|e| e.thread == owner) {
+            break; // a cycle that does not contain this thread: reported by one of its members
+        }
+        cur = owner;
+    }
+    if found {
+        st.deadlocks.push(DeadlockReport { cycle });
+    }
+}
+
+fn end_wait() {
+    let t = thread_id();
+    state().waiting.remove(&t);
+}
+
+fn acquired(me: &LockRef) {
+    let t = thread_id();
+    state().owner.insert(me.id, (t, me.clone()));
+    THREAD.with(|th| th.1.borrow_mut().push(me.clone()));
+}
+
+fn released(id: usize) {
+    let _ = THREAD.try_with(|th| {
+        let mut v = th.1.borrow_mut();
+        if let Some(p) = v.iter().rposition(|h| h.id == id) {
+            v.remove(p);
+        }
+    });
+    state().owner.remove(&id);
+}
+
+/// Instrumented mutual exclusion lock; same blocking behaviour as the wrapped `std::sync::Mutex`.
+pub struct Mutex<T: ?Sized> {
+    id: usize,
+    inner: std::sync::Mutex<T>,
+}
+
+pub struct MutexGuard<'a, T: ?Sized + 'a> {
+    id: usize,
+    inner: Option<std::sync::MutexGuard<'a, T>>,
+}
+
+impl<T> Mutex<T> {
+    pub fn new(value: T) -> Mutex<T> {
+        Mutex {
+            id: NEXT_LOCK_ID.fetch_add(1, Ordering::Relaxed),
+            inner: std::sync::Mutex::new(value),
+        }
+    }
+}
+
+impl<T: ?Sized> Mutex<T> {
+    /// serial number of this mutex (creation order)
+    pub fn verif_id(&self) -> usize {
+        self.id
+    }
+
+    fn lock_ref(&self, loc: &'static Location<'static>) -> LockRef {
+        LockRef {
+            class: std::any::type_name::<T>(),
+            id: self.id,
+            file: loc.file(),
+            line: loc.line(),
+            col: loc.column(),
+        }
+    }
+
+    #[track_caller]
+    pub fn lock(&self) -> LockResult<MutexGuard<'_, T>> {
+        if !recording() {
+            return match self.inner.lock() {
+                Ok(g) => Ok(MutexGuard { id: 0, inner: Some(g) }),
+                Err(p) => Err(PoisonError::new(MutexGuard { id: 0, inner: Some(p.into_inner()) })),
+            };
+        }
+        let loc = Location::caller();
+        let me = self.lock_ref(loc);
+        record_request(&me, false);
+        if let Some(ms) = take_delay(loc) {
+            std::thread::sleep(Duration::from_millis(ms));
+        }
+        let (inner, poisoned) = match self.inner.try_lock() {
+            Ok(g) => (g, false),
+            Err(TryLockError::Poisoned(p)) => (p.into_inner(), true),
+            Err(TryLockError::WouldBlock) => {
+                begin_wait(&me);
+                let r = self.inner.lock();
+                end_wait();
+                match r {
+                    Ok(g) => (g, false),
+                    Err(p) => (p.into_inner(), true),
+                }
+            }
+        };
+        acquired(&me);
+        let guard = MutexGuard {
+            id: self.id,
+            inner: Some(inner),
+        };
+        if poisoned {
+            Err(PoisonError::new(guard))
+        } else {
+            Ok(guard)
+        }
+    }
+
+    #[track_caller]
+    pub fn try_lock(&self) -> TryLockResult<MutexGuard<'_, T>> {
+        if !recording() {
+            return match self.inner.try_lock() {
+                Ok(g) => Ok(MutexGuard { id: 0, inner: Some(g) }),
+                Err(TryLockError::Poisoned(p)) => {
+                    Err(TryLockError::Poisoned(PoisonError::new(MutexGuard { id: 0, inner: Some(p.into_inner()) })))
+                }
+                Err(TryLockError::WouldBlock) => Err(TryLockError::WouldBlock),
+            };
+        }
+        let loc = Location::caller();
+        let me = self.lock_ref(loc);
+        record_request(&me, true);
+        match self.inner.try_lock() {
+            Ok(g) => {
+                acquired(&me);
+                Ok(MutexGuard {
+                    id: self.id,
+                    inner: Some(g),
+                })
+            }
+            Err(TryLockError::Poisoned(p)) => {
+                acquired(&me);
+                Err(TryLockError::Poisoned(PoisonError::new(MutexGuard {
+                    id: self.id,
+                    inner: Some(p.into_inner()),
+                })))
+            }
+            Err(TryLockError::WouldBlock) => Err(TryLockError::WouldBlock),
+        }
+    }
+}
+
+impl<T> From<T> for Mutex<T> {
+    fn from(value: T) -> Self {
+        Mutex::new(value)
+    }
+}
+
+impl<T: Default> Default for Mutex<T> {
+    fn default() -> Self {
+        Mutex::new(T::default())
+    }
+}
+
+impl<T: ?Sized + fmt::Debug> fmt::Debug for Mutex<T> {
+    fn fmt(&self, f: &mut fmt::Formatter<'_>) -> fmt::Result {
+        // like std: never blocks
+        match self.inner.try_lock() {
+            Ok(g) => f.debug_struct("Mutex").field("data", &&*g).finish(),
+            Err(TryLockError::Poisoned(p)) => f.debug_struct("Mutex").field("data", &&**p.get_ref()).finish(),
+            Err(TryLockError::WouldBlock) => f.debug_struct("Mutex").field("data", &format_args!("<locked>")).finish(),
+        }
+    }
+}
+
+impl<T: ?Sized> Deref for MutexGuard<'_, T> {
+    type Target = T;
+    fn deref(&self) -> &T {
+        self.inner.as_ref().unwrap()
+    }
+}
+
+impl<T: ?Sized> DerefMut for MutexGuard<'_, T> {
+    fn deref_mut(&mut self) -> &mut T {
+        self.inner.as_mut().unwrap()
+    }
+}
+
+impl<T: ?Sized> Drop for MutexGuard<'_, T> {
+    fn drop(&mut self) {
+        // bookkeeping first, then the real unlock: the next owner registers after it acquired
+        if self.id != 0 {
+            released(self.id);
+        }
+        self.inner.take();
+    }
+}
+
+impl<T: ?Sized + fmt::Debug> fmt::Debug for MutexGuard<'_, T> {
+    fn fmt(&self, f: &mut fmt::Formatter<'_>) -> fmt::Result {
+        fmt::Debug::fmt(&**self, f)
+    }
+}
+
+impl<T: ?Sized + fmt::Display> fmt::Display for MutexGuard<'_, T> {
+    fn fmt(&self, f: &mut fmt::Formatter<'_>) -> fmt::Result {
+        fmt::Display::fmt(&**self, f)
+    }
+}
